@@ -1,40 +1,99 @@
 (* C03 - taste accepts every well-formed plotfile under every option
    combination.  Statements only. *)
-From AK Require Import Base.Prelude Bytes.Text Bytes.FabHeader Bytes.BinFile
+From AK Require Import Base.Prelude Bytes.Text Bytes.FabHeader Bytes.BinFile Bytes.Word Bytes.WordProofs
   Reader.Select Reader.BoxRead Reader.Level Reader.ReadSpec
   Plotfile.TextHeader Plotfile.HeaderSpec Taste.Taste Taste.TasteSpec Plotfile.Abstract
-  Taste.CompleteProofs.
+  Taste.CompleteProofs Taste.DataProofs.
 
-(* Full statement (all 16 option sets):
-     forall pf o limit lim, wf_plotfile pf -> eff_limit .. limit = Some lim -> 0 <= lim ->
-       taste_good o limit (pf_disk pf) = true.
-   It is FALSE of the pinned code: see C03_binary_data_refuted.  What holds: *)
+(* Full statement, all 16 option sets: every well-formed plotfile - any number
+   of levels and boxes, any box->file distribution and on-disk order - is
+   accepted for every admissible level limit.  The verdict is the same function
+   in failing and non-failing mode (good = no raise / evaluates true); the
+   box-coordinate flag is not part of the modelled verdict (checked by the
+   correspondence).
 
-(* Completeness on the option sets that do not reach the binary-data branch
-   (10 of the 16 sets; the box-coordinate flag is not part of the modelled
-   verdict): every well-formed plotfile - any number of levels, boxes, any
-   box->file distribution and on-disk order - is accepted, for every
-   admissible level limit.  The verdict is the same function in failing and
-   non-failing mode (good = no raise / evaluates true). *)
-Theorem C03_complete_partial : forall (pf : plotfile) (o : topts) (limit : option Z) (lim : Z),
+   [close tok w] is np.isclose(float(tok), w), an oracle of the model (Python's
+   float parsing and arithmetic).  The six option sets that reach the
+   binary-data check (binary_data with binary_headers or binary_shape off)
+   compare the level header's per-box minima / maxima with the stored data, so
+   for them "well-formed" includes: on the validated levels every table entry
+   is close to the extremum of the non-NaN values of the component it
+   describes ([pl_minmax_close], the model's own per-box boolean; see
+   [C03_tables_close_suffices]).  The other ten need nothing of the tables. *)
+Theorem C03_complete : forall close (pf : plotfile) (o : topts) (limit : option Z) (lim : Z),
+  wf_plotfile pf ->
+  eff_limit (g_max_level (pf_g pf)) limit = Some lim -> 0 <= lim ->
+  ((t_data o && negb (t_headers o && t_shape o)) = true ->
+   Forall (pl_minmax_close close (pf_nfields pf)) (firstn (Z.to_nat (lim + 1)) (pf_levels pf))) ->
+  taste_good close o limit (pf_disk pf) = true.
+Proof. exact taste_complete. Qed.
+
+Theorem C03_complete_without_data_check : forall close (pf : plotfile) (o : topts) (limit : option Z) (lim : Z),
   wf_plotfile pf ->
   eff_limit (g_max_level (pf_g pf)) limit = Some lim -> 0 <= lim ->
   (t_data o && negb (t_headers o && t_shape o)) = false ->
-  taste_good o limit (pf_disk pf) = true.
-Proof. exact taste_complete. Qed.
-Print Assumptions C03_complete_partial.
+  taste_good close o limit (pf_disk pf) = true.
+Proof. exact taste_complete_nodata. Qed.
 
-(* The six remaining option sets reject EVERY directory, hence every
-   well-formed plotfile: the known finding of KNOWN_FINDINGS.txt
-   (key binary-data-branch).  Replayed on the implementation on every run. *)
-Theorem C03_binary_data_refuted : forall o limit d,
-  (t_data o && negb (t_headers o && t_shape o)) = true -> taste_good o limit d = false.
-Proof. exact taste_binary_data_branch. Qed.
-Print Assumptions C03_binary_data_refuted.
+(* The table hypothesis holds as soon as each entry is close to np.nanmin /
+   np.nanmax of its component and no component is entirely NaN. *)
+Theorem C03_tables_close_suffices : forall close nf fb mins maxs,
+  (forall k, (k < Z.to_nat nf)%nat ->
+     Z.of_nat k < fab_nc fb /\
+     exists tmin tmax wmin wmax,
+       nth_error mins k = Some tmin /\ nth_error maxs k = Some tmax /\
+       nan_min (fab_comp fb (Z.of_nat k)) = Some wmin /\ nan_max (fab_comp fb (Z.of_nat k)) = Some wmax /\
+       close tmin wmin = true /\ close tmax wmax = true) ->
+  fab_data_ok close nf (fab_rec fb) mins maxs = true.
+Proof. exact fab_data_ok_intro. Qed.
 
-(* The binary-shape walk accepts the image of any list of well-formed FABs
-   (the induction the completeness proof rests on). *)
+(* np.nanmin / np.nanmax in the model: an extremum of the non-NaN values. *)
+Theorem C03_nanmin : forall c w, nan_min c = Some w ->
+  In w (words_of c) /\ is_nan w = false /\
+  forall x, In x (words_of c) -> is_nan x = false -> word_leb w x = true.
+Proof. exact nan_min_spec. Qed.
+
+(* The data scan reads every FAB of a binary file, in file order, and stops. *)
+Theorem C03_data_scan : forall (fs : list fab) fuel pre,
+  Forall (fun fb => fab_ok fb = true) fs -> (length fs < fuel)%nat ->
+  scan_data fuel (pre ++ encode_file fs) (blen pre) = map fab_rec fs.
+Proof. exact scan_data_spec. Qed.
+
+(* The rows of a file sorted by recorded offset are its boxes in on-disk order
+   (so row idx of the sorted tables describes the idx-th FAB read). *)
+Theorem C03_rows_in_disk_order : forall pl name ids,
+  wf_level (pl_level pl) = true -> In (name, ids) (lv_files (pl_level pl)) ->
+  file_ids (pl_cellh pl) name = ids.
+Proof. exact file_ids_sorted. Qed.
+
 Theorem C03_sorted_by_offset_is_disk_order : forall l l',
   Permutation.Permutation l l' -> Sorted.StronglySorted off_lt l' -> sort_by_off l = l'.
 Proof. exact sort_by_off_unique. Qed.
+
+(* The pinned code (before the fix: commit of KNOWN_FINDINGS.txt) rejected EVERY
+   directory under the six option sets reaching the data check. *)
+Theorem C03_binary_data_refuted_on_pinned_code : forall close o limit d,
+  (t_data o && negb (t_headers o && t_shape o)) = true -> taste_good_pinned close o limit d = false.
+Proof. exact taste_binary_data_branch_pinned. Qed.
+
+(* non-vacuity of the data check: one 2x1 box with two components, rows naming
+   the extrema; accepted with a table relating each token to its word, rejected
+   when the table does not hold the maximum of the second component *)
+Example C03_data_check_example :
+  let w (x : Z) := [ascii_of_nat (Z.to_nat x); "000"; "000"; "000"; "000"; "000"; "000"; "000"]%char in
+  let fb := {| fab_lo := [0; 0]; fab_hi := [1; 0]; fab_nc := 2; fab_data := w 3 ++ w 1 ++ w 7 ++ w 9 |} in
+  let tbl := [(bs "a", w 1); (bs "b", w 3); (bs "c", w 7); (bs "d", w 9)] in
+  let close := fun t x => existsb (fun p => bytes_eqb (fst p) t && bytes_eqb (snd p) x) tbl in
+  fab_data_ok close 2 (fab_rec fb) [bs "a"; bs "c"] [bs "b"; bs "d"] = true /\
+  fab_data_ok close 2 (fab_rec fb) [bs "a"; bs "c"] [bs "b"; bs "c"] = false /\
+  scan_data 100 (encode_file [fb; fb]) 0 = [fab_rec fb; fab_rec fb].
+Proof. vm_compute. repeat split. Qed.
+
+Print Assumptions C03_complete.
+Print Assumptions C03_complete_without_data_check.
+Print Assumptions C03_tables_close_suffices.
+Print Assumptions C03_nanmin.
+Print Assumptions C03_data_scan.
+Print Assumptions C03_rows_in_disk_order.
 Print Assumptions C03_sorted_by_offset_is_disk_order.
+Print Assumptions C03_binary_data_refuted_on_pinned_code.
